@@ -170,7 +170,26 @@ def step (tbl : Array SpD) (stack : List (Impl C)) (tok : String) : Option (List
       if (FiniteDiff.sizeCheck Gen.FiniteDiff.guards
           (Gen.FiniteDiff.tbl (Gen.FiniteDiff.adjMethod me) (Gen.FiniteDiff.adjPad pa))
           (Gen.FiniteDiff.adjPad pa) n).isSome then none
-      some (.leaf (Leaf.partialDeriv (← sp s) n (← q.toNat?) me pa (← CRat.parse dx)) :: st)
+      some (.leaf (Leaf.partialDeriv (← sp s) (← sp s) n (← q.toNat?) me pa (← CRat.parse dx)) :: st)
+  | [gd, a, b, sh, me, pa, dxs], st => do
+      -- Gradient (`grad;S;V;shape;method;pad;dx0,dx1,…`) / Divergence (`div;V;S;…`)
+      if gd != "grad" && gd != "div" then none
+      let me ← parseMethod me; let pa ← parsePad pa
+      let sh ← parseNatList sh
+      let dxl ← parseCList dxs
+      if dxl.length != sh.length then none
+      let ok := sh.all fun n =>
+        (FiniteDiff.sizeCheck Gen.FiniteDiff.guards (Gen.FiniteDiff.tbl me pa) pa n).isNone &&
+        (FiniteDiff.sizeCheck Gen.FiniteDiff.guards
+          (Gen.FiniteDiff.tbl (Gen.FiniteDiff.adjMethod me) (Gen.FiniteDiff.adjPad pa))
+          (Gen.FiniteDiff.adjPad pa) n).isNone
+      if !ok then none
+      let dxa := dxl.toArray
+      let dx : Nat → C := fun i => dxa.getD i 0
+      if gd = "grad" then
+        some (gradTree (← sp a) (← sp b) sh me pa dx sh.length :: st)
+      else
+        some (divTree (← sp a) (← sp b) sh me pa dx sh.length :: st)
   | ["sum"], b :: a :: st => some (.sum a b :: st)
   | ["comp"], b :: a :: st => some (.comp a b :: st)
   | ["lsc", c], a :: st => do some (.lscal a (← CRat.parse c) :: st)
